@@ -283,7 +283,29 @@ def make_flag():
 def gen_directives(rng):
   """Returns (directive strings, model thunks) - model = the same steps done by hand."""
   seq = []
-  base_kind = rng.choice(['config', 'config', 'config_str', 'auto'])
+  base_kind = rng.choice(['config', 'config', 'config_str', 'auto', 'lit'])
+  if base_kind == 'lit':
+    # few distinct expression texts with MUTABLE literal arguments, repeated across flags of one
+    # process, and overrides that edit those literals in place
+    layers = rng.choice([[1, 2], [1, 2], [0, [3, 4]]])
+    text = rng.choice([f'base_lit({layers!r})', f'base_lit(layers={layers!r})'])
+    seq.append(('config:' + text, lambda cfg, l=layers: flagmod.base_lit(copy.deepcopy(l))))
+    for _ in range(rng.randint(0, 4)):
+      r = rng.random()
+      if r < 0.5:
+        i, v = rng.randint(0, 1), rng.choice([10, 'z', None, [7]])
+        seq.append((f'set:a[{i}]={v!r}', lambda cfg, i=i, v=v: (cfg.a.__setitem__(i, copy.deepcopy(v)), cfg)[1]))
+      elif r < 0.8:
+        names = ['p', 'q']
+        seq.append((f'fiddler:store(names={names!r})',
+                    lambda cfg, n=names: (flagmod.store(cfg, copy.deepcopy(n)), cfg)[1]))
+        if rng.random() < 0.6:
+          v = rng.choice(['w', 5])
+          seq.append((f'set:c[1]={v!r}', lambda cfg, v=v: (cfg.c.__setitem__(1, v), cfg)[1]))
+      else:
+        v = rng.choice([1, 'u'])
+        seq.append((f'set:b.x={v!r}', lambda cfg, v=v: (setattr(cfg.b, 'x', v), cfg)[1]))
+    return seq
   if base_kind == 'config':
     args = [lit(rng) for _ in range(rng.randint(0, 3))]
     kw = {k: lit(rng) for k in rng.sample(['p', 'q'], rng.randint(0, 2))} if len(args) <= 2 else {}
